@@ -41,6 +41,7 @@ void vr_get(const char *name, void *dst, size_t elem, size_t n);
 # define VPRE(tags, c, what)   ((void)0)
 # define VBOUND(c, what) ((void)0)
 # define VPOST_KF(tags, kfdef_on, region, c, what, kfid) ((void)0)
+# define VKF(kfdef_on, region, c, kfid, what) ((void)0)
 #else
 # define VCOVER(c, what) ((void)0)
 /* tags: comma-separated property ids the assertion belongs to, e.g. "C06,C07" (a check for property P counts a failed
@@ -59,6 +60,9 @@ void vr_get(const char *name, void *dst, size_t elem, size_t n);
 	} else { \
 		__CPROVER_assert((c), "V:post[" tags "] " what); \
 	} } while (0)
+/* several findings on one postcondition: assert the postcondition outside the union of the enabled regions with
+ * VPOST, then one VKF per finding records whether that finding's region still fails */
+# define VKF(kfdef_on, region, c, kfid, what) do { if (kfdef_on) __CPROVER_assert(!(region) || (c), "KF:" kfid " " what); } while (0)
 #endif
 
 #endif
